@@ -95,6 +95,9 @@ pub trait DynIter<T> {
     fn nb(&mut self) -> Option<Option<T>>;
     fn nth(&mut self, k: usize) -> Option<T>;
     fn nth_back(&mut self, k: usize) -> Option<Option<T>>;
+    /// by-value consumers (an implementation may override them)
+    fn last_(self: Box<Self>) -> Option<T>;
+    fn count_(self: Box<Self>) -> usize;
     /// `None` = the type does not declare ExactSizeIterator
     fn xlen(&self) -> Option<usize>;
     fn hint(&self) -> (usize, Option<usize>);
@@ -109,6 +112,8 @@ macro_rules! dyn_iter_impl {
             fn nb(&mut self) -> Option<Option<$item>> { (&mut self.0).back() }
             fn nth(&mut self, k: usize) -> Option<$item> { self.0 .0.nth(k) }
             fn nth_back(&mut self, k: usize) -> Option<Option<$item>> { (&mut self.0).nth_back_(k) }
+            fn last_(self: Box<Self>) -> Option<$item> { self.0 .0.last() }
+            fn count_(self: Box<Self>) -> usize { self.0 .0.count() }
             fn xlen(&self) -> Option<usize> { (&self.0).xlen() }
             fn hint(&self) -> (usize, Option<usize>) { self.0 .0.size_hint() }
             fn fused(&self) -> bool { (&self.0).fused() }
